@@ -291,6 +291,10 @@ class Body:
         d = self.dominators()
         return b in d and a in d[b]
 
+    def edge_dominates(self, src, tgt, block):
+        """Every path from the entry to `block` takes the CFG edge src->tgt."""
+        return block not in self.reach(0, avoid_edges=[(src, tgt)])
+
     def postdominators(self):
         """Post-dominators with respect to normal returns: a pdom b iff every path from b to a return
         passes through a.  Paths that diverge (panic) are ignored."""
